@@ -162,7 +162,7 @@ def too_expensive(expr_src):
             rv = const(r)
             if rv is None and isinstance(r, ast.BinOp) and isinstance(r.op, ast.Pow):
                 rv = 10 ** 9        # a tower
-            if rv is not None and abs(rv) > 4096:
+            if rv is not None and abs(rv) > 2000000:
                 lv = const(n.left)
                 if lv is None or abs(lv) not in (0, 1):
                     return True
@@ -237,7 +237,7 @@ def cmd_fold(path):
         b = value_repr(out[2:])
         # the whole right-hand side is evaluated before and after: folding an inner, non-raising sub-expression of an expression that
         # raises (or is NaN) as a whole is fine, the result just has to be the same exception type / value
-        if a != b:
+        if a != b and 'too-expensive' not in (a[0], b[0]):      # an evaluation that was refused / timed out on either side decides nothing
             violations.append({'label': label, 'source': src, 'sig': 'value-changed', 'detail': '%r -> %r: %r != %r' % (src, out, a, b)})
     return {'checked': checked, 'skipped': skipped, 'folded': folded, 'violations': violations[:200]}
 
